@@ -13,10 +13,17 @@ Definition subdivide_nodes_py (v : list Qc) : list Qc * list Qc :=
   | None => (subdivide_left QcOps v, subdivide_right QcOps v)
   end.
 
-(* hazmat.curve_helpers.reduce_pseudo_inverse; None = UnsupportedDegree *)
-Definition reduce_py (v : list Qc) : option (list Qc) :=
+(* hazmat.curve_helpers.reduce_pseudo_inverse; None = UnsupportedDegree.
+   Generic in the arithmetic K and the embedding of the translated rational constants. *)
+Definition reduce_gen {T} (K : Ops T) (emb : Q -> T) (v : list T) : option (list T) :=
   match lookup (length v) reduce_dispatch with
-  | Some (t, d) => Some (reduce_with QcOps (qcm t) (Q2Qc d) v)
+  | Some (t, d) => Some (reduce_with K (map (map emb) t) (emb d) v)
+  | None => None
+  end.
+Definition reduce_py (v : list Qc) : option (list Qc) := reduce_gen QcOps Q2Qc v.
+Definition project_gen {T} (K : Ops T) (emb : Q -> T) (v : list T) : option (list T) :=
+  match lookup (length v) projection_dispatch with
+  | Some (t, d) => Some (reduce_with K (map (map emb) t) (emb d) v)
   | None => None
   end.
 
@@ -24,3 +31,34 @@ Definition evaluate_multi_py (v : list Qc) (ss : list Qc) : list Qc :=
   eval_multi QcOps vs_max_nodes v ss.
 Definition evaluate_hodograph_py (v : list Qc) (s : Qc) : Qc :=
   eval_hodograph QcOps vs_max_nodes v s.
+
+(* ---- maybe_reduce / full_reduce on a whole net (all coordinate rows): the Frobenius norms couple the rows.
+   Comparisons are made on squares (no sqrt): relative_err < thr  <->  err2 < thr^2 * nrm2. *)
+Definition sumsq (m : list (list Qc)) : Qc :=
+  fold_right (fun r acc => fold_right (fun x a => x * x + a) acc r) (Q2Qc 0) m.
+Definition project_with (P : list (list Q)) (d : Q) (v : list Qc) : list Qc :=
+  reduce_with QcOps (qcm P) (Q2Qc d) v.
+Definition Qc_ltb (a b : Qc) : bool := negb (Qle_bool (this b) (this a)).
+Definition maybe_reduce_py (rows : list (list Qc)) : option (bool * list (list Qc)) :=
+  let nn := length (hd [] rows) in
+  if Nat.ltb nn 2 then Some (false, rows) else
+  match lookup nn projection_dispatch, lookup nn reduce_dispatch with
+  | Some (P, d), Some (t, dr) =>
+      let proj := map (project_with P d) rows in
+      let err2 := sumsq (map (fun p => zipw Qcminus (fst p) (snd p)) (combine rows proj)) in
+      let nrm2 := sumsq rows in
+      let thr := Q2Qc REDUCE_THRESHOLD in
+      let small := if Qc_eqb err2 (Q2Qc 0) then true else Qc_ltb err2 (thr * thr * nrm2) in
+      if small then Some (true, map (reduce_with QcOps (qcm t) (Q2Qc dr)) rows) else Some (false, rows)
+  | _, _ => None
+  end.
+Fixpoint full_reduce_py (fuel : nat) (rows : list (list Qc)) : option (list (list Qc)) :=
+  match fuel with
+  | O => Some rows
+  | S f => match maybe_reduce_py rows with
+           | None => None
+           | Some (true, rows') => full_reduce_py f rows'
+           | Some (false, rows') => Some rows'
+           end
+  end.
+Definition elevate_py (v : list Qc) : list Qc := elevate QcOps v.
